@@ -48,6 +48,8 @@ def driver_line(op: dict, impl_resp: str) -> str | None:
         if "choose" in op:
             s += f" choose={op['choose']}"
         return s
+    if o == "shippedtab":
+        return "shippedtab " + op["model_args"]
     if o == "matrices":
         return f"matrices id={op['id']} tol={op['tol']}"
     if o == "space":
